@@ -173,7 +173,11 @@ class WebSocketWriter:
     def _get_compressor(self, compress: int | None) -> ZLibCompressor:
         """Get or create a compressor object for the given compression level."""
         if compress:
-            # Do not set self._compress if compressing is for this frame
+            # Do not set self._compress if compressing is for this frame.
+            # The peer inflates every message with one decompressor: this message
+            # moves its window while the shared compressor's history stays behind,
+            # so that history must not be referenced again (context takeover).
+            self._compressobj = None
             return ZLibCompressor(
                 level=ZLibBackend.Z_BEST_SPEED,
                 wbits=-compress,
